@@ -60,6 +60,11 @@ def corpus():
     # F70: the update moves away from the bound
     K = base(); lp = K.body[0].kids[0]; lp.raw, lp.raw_ir = "int i = 0; i > N; ++i", "k,0,k,gt,?,k,inc,-,l"
     out.append([G.t_op(K, REJECT)])
+    # sibling nested @outer loops with different @inner depth; the second of two kernels is fine, the first is not
+    g1, b1 = G.sibling_outer_kernels(r)
+    out.append([G.t_op(g1, ACCEPT), G.t_op(b1, REJECT)])
+    Ka, Kb = base(), base(); Ka.name, Kb.name, Ka.ret = "ka", "kb", "int"
+    out.append([G.t_op_multi([Ka, Kb], REJECT)])
     # accepted: break in a switch / sequential loop inside @inner; decreasing loops
     K = base(True); K.body[0].kids[1].kids.append(G.Seq("switch", "switch (j) {", [G.Leaf("label", "case 0:"), G.Leaf("break"),
                                                                                   G.Leaf("label", "default:"), G.Leaf("break")]))
@@ -80,6 +85,23 @@ def gen_history(r, tier):
         K3 = copy_use(K, r)
         if K3 is not None:
             h.append(G.t_op(K3, "aaaaaaa"))
+    if r.random() < 0.4:
+        good, bad = G.sibling_outer_kernels(r)
+        h.append(G.t_op(good, ACCEPT))
+        h.append(G.t_op(bad, REJECT))
+        TAGS[h[-1]] = "mismatch-across-sibling-outer"
+    if r.random() < 0.4:
+        # two kernels in one source: the verdict is the conjunction, whichever kernel is the broken one
+        import copy
+        A, B = copy.deepcopy(K), G.base_kernel(r)
+        A.name, B.name = "ka", "kb"
+        if A.pre:
+            B.pre = ""          # one definition of the helper function per source
+        Bm, tag = G.mutate(B, r)
+        Am, _ = G.mutate(A, r)
+        h.append(G.t_op_multi([A, B], ACCEPT))
+        h.append(G.t_op_multi([Am, B] if r.random() < 0.5 else [A, Bm], REJECT))
+        TAGS[h[-1]] = "multi-kernel:" + tag
     return h
 
 
